@@ -76,7 +76,7 @@ def seq_slice(prop, tier, seed, report, budget_scale=1.0, label="slice"):
         cfg = cfg_for(i, rng)
         contents = oracle.Contents()
         u = prop.universe(rng, contents, cfg["store_alg"])
-        if i < 16:
+        if i < 20:
             pats = u.lifecycle_patterns()       # scripted on this history's own universe
         if i < len(pats):
             history = pats[i] + prop.history(u, max(2, length // 3))
